@@ -9,38 +9,29 @@
    `reload_equiv m` : re-opening the group yields the same observable list (identifier, status if sent, metadata,
    request body unless successful); `skeleton m` : identifiers and metadata on disk are those of memory.
    `WExact w` : several groups — every live group object is exact with respect to the file of its own name.
-   The statement holds for every history, every job, every server script, operations returning or raising, with one
-   exception (open finding get_results-status-change-not-written): JobGroup.get_results() may refresh the status of
-   an UNKNOWN job a second time through RemoteJob.get_results() and nothing writes it; `quiet` (ghost flag, raised by
-   get_results only — C19_flag_only_get_results) excludes exactly that. *)
+   The statement holds in FULL: every history over every public entry point of JobGroup (get_results and
+   track_progress included), every job, every server script, operations returning or raising; no admissibility
+   condition, no ghost hypothesis. The fourth repair, 65ec16e2 (get_results writes once more on leaving its per-job
+   loop iff the jobs differ), is part of `cur`; `before_65ec16e2` is the configuration of its historical witness. *)
 From PV Require Import Model.JobGroup Proofs.JobGroupP.
 Require Import List ZArith.
 Import ListNotations.
 
-Theorem C19_disk_matches_memory_partial : forall sc ops, quiet (init sc) ops ->
+Theorem C19_disk_matches_memory : forall sc ops,
   Exact (run cur (init sc) ops) /\ reload_equiv (run cur (init sc) ops).
-Proof. exact disk_matches_memory_partial. Qed.
-Print Assumptions C19_disk_matches_memory_partial.
-
-Theorem C19_disk_matches_memory_without_get_results : forall sc ops, Forall (fun o => o <> OGetResults) ops ->
-  Exact (run cur (init sc) ops) /\ reload_equiv (run cur (init sc) ops).
-Proof. exact disk_matches_memory_without_get_results. Qed.
-Print Assumptions C19_disk_matches_memory_without_get_results.
+Proof. exact disk_matches_memory. Qed.
+Print Assumptions C19_disk_matches_memory.
 
 Theorem C19_every_operation_preserves : forall m o m' out,
-  Forall good (mem m) -> Exact m -> step cur m o = (m', out) ->
-  Forall good (mem m') /\ ((o = OGetResults -> udirty m' = false) -> Exact m').
+  Forall good (mem m) -> Exact m -> step cur m o = (m', out) -> Forall good (mem m') /\ Exact m'.
 Proof. exact step_exact. Qed.
 Print Assumptions C19_every_operation_preserves.
 
+(* from ANY state in which jobs are well-formed, identifiers/metadata on disk are those of memory and the file is the
+   image of well-formed jobs (e.g. a directory left by an older version), these three facts are preserved *)
 Theorem C19_every_operation_preserves_weakly : forall m o m' out, WInv m -> step cur m o = (m', out) -> WInv m'.
 Proof. exact step_weak. Qed.
 Print Assumptions C19_every_operation_preserves_weakly.
-
-Theorem C19_flag_only_get_results : forall m o m' out, Forall good (mem m) -> Exact m -> step cur m o = (m', out) ->
-  o <> OGetResults -> udirty m' = false.
-Proof. exact flag_only_get_results. Qed.
-Print Assumptions C19_flag_only_get_results.
 
 (* the hypotheses of the step theorem hold initially *)
 Theorem C19_initial_state : forall sc, Forall good (mem (init sc)) /\ Exact (init sc).
@@ -52,34 +43,18 @@ Theorem C19_accepted_ids_survive : forall sc ops,
 Proof. exact accepted_ids_survive. Qed.
 Print Assumptions C19_accepted_ids_survive.
 
-Theorem C19_request_same_after_reopen : forall sc ops, quiet (init sc) ops ->
+Theorem C19_request_same_after_reopen : forall sc ops,
   let m := run cur (init sc) ops in
   Forall2 (fun j j' => jid j' = jid j /\ (success (jst j) = false -> eff_body j' = eff_body j)) (mem m) (load cur (disk m)).
 Proof. exact request_same_after_reopen. Qed.
 Print Assumptions C19_request_same_after_reopen.
 
-(* counterexample to the full statement on the CURRENT code (open finding get_results-status-change-not-written) *)
-Theorem C19_disk_matches_memory_refuted_get_results :
-  exists ops sc, snd (step cur (run cur (init sc) (removelast ops)) (last ops OReopen)) = Returned /\
-                 ~ reload_equiv (run cur (init sc) ops).
-Proof. exact disk_matches_memory_refuted_get_results. Qed.
-Print Assumptions C19_disk_matches_memory_refuted_get_results.
-
-Theorem C19_hypotheses_satisfiable :
-  exists ops sc, quiet (init sc) ops /\ In OGetResults ops /\ length (mem (run cur (init sc) ops)) = 2%nat.
-Proof.
-  eexists _, _. split; [exact (proj1 hypotheses_satisfiable)|]. split; [|exact (proj2 hypotheses_satisfiable)].
-  simpl. tauto.
-Qed.
-Print Assumptions C19_hypotheses_satisfiable.
-
 (* several groups: a file store indexed by name *)
-Theorem C19_world_disk_matches_memory : forall ops sc, mquiet (winit sc) ops -> WExact (mrun cur (winit sc) ops).
+Theorem C19_world_disk_matches_memory : forall ops sc, WExact (mrun cur (winit sc) ops).
 Proof. exact world_disk_matches_memory. Qed.
 Print Assumptions C19_world_disk_matches_memory.
 
-Theorem C19_world_operation_preserves : forall w o w' out,
-  WExact w -> mquiet_step w o -> mstep cur w o = (w', out) -> WExact w'.
+Theorem C19_world_operation_preserves : forall w o w' out, WExact w -> mstep cur w o = (w', out) -> WExact w'.
 Proof. exact mstep_exact. Qed.
 Print Assumptions C19_world_operation_preserves.
 
@@ -211,3 +186,18 @@ Theorem C19_classic_run_same_writes :
   writes (run cur (init s) h) = writes (run before_9afb11d4 (init s) h) /\ writes (run cur (init s) h) = 6%nat.
 Proof. exact classic_run_same_writes. Qed.
 Print Assumptions C19_classic_run_same_writes.
+
+(* HISTORICAL counterexample, about the code before 65ec16e2 *)
+Theorem C19_disk_matches_memory_refuted_get_results_old_code :
+  exists ops sc, snd (step before_65ec16e2 (run before_65ec16e2 (init sc) (removelast ops)) (last ops OReopen)) = Returned /\
+                 ~ reload_equiv_r (run before_65ec16e2 (init sc) ops).
+Proof. exact disk_matches_memory_refuted_get_results_old_code. Qed.
+Print Assumptions C19_disk_matches_memory_refuted_get_results_old_code.
+
+Theorem C19_repaired_get_results_witness :
+  let h := [OAdd (sp 1) true None false; OGetResults] in
+  let s := [AOk 10%Z WAITING; AOk 11%Z UNKNOWN; AOk 12%Z SUCCESS; AOk 0%Z WAITING] in
+  snd (step cur (run cur (init s) (removelast h)) (last h OReopen)) = Returned /\
+  writes (run cur (init s) h) = S (writes (run before_65ec16e2 (init s) h)).
+Proof. exact repaired_get_results_witness. Qed.
+Print Assumptions C19_repaired_get_results_witness.
